@@ -63,6 +63,7 @@ type Parser struct {
 	proto         string
 	statusCode    int
 	noBody        bool // the response status forbids a body (1xx, 204, 304)
+	failed        bool // Parse has returned an error
 	status        string
 	headerKey     string
 	headerValue   string
@@ -147,22 +148,27 @@ func parseAndValidateChunkSize(originalStr string) (int, error) {
 // and doesn't parse them itself any more.
 //
 //go:norace
-func (p *Parser) Parse(data []byte) error {
+func (p *Parser) Parse(data []byte) (err error) {
 	p.mux.Lock()
 	defer func() {
+		if err != nil {
+			// nothing is parsed or reported after an error, also for a
+			// caller that goes on feeding data instead of closing.
+			p.failed = true
+		}
 		p.mux.Unlock()
-		if err := recover(); err != nil {
+		if r := recover(); r != nil {
 			const size = 64 << 10
 			buf := make([]byte, size)
 			buf = buf[:runtime.Stack(buf, false)]
 			logging.Error("HTTP Parse failed: %v\n%v\n",
-				err,
+				r,
 				*(*string)(unsafe.Pointer(&buf)),
 			)
 		}
 	}()
 
-	if p.state == stateClose {
+	if p.state == stateClose || p.failed {
 		return net.ErrClosed
 	}
 
